@@ -152,6 +152,7 @@ type RunStats struct {
 	CrossDetail [][3]string    `json:"cross_detail,omitempty"` // C15, replay of a pair only: (key hash, key, result)
 	DescHash    uint64         `json:"desc_hash"`
 	SimNanos    int64          `json:"sim_nanos,omitempty"` // simulated time offered (sum of ticks)
+	WallMs      int64          `json:"wall_ms,omitempty"`   // real time this run took (informational; never part of a fingerprint or verdict)
 	Sample      string         `json:"sample,omitempty"`
 }
 
